@@ -84,6 +84,7 @@ type FnCtx struct {
 	callSites int
 	og        *ogSpec
 	opKeys    map[ssa.Instruction]string
+	ogResultTypes map[string]types.Type
 	decided   []*OblResult
 	doneChans []Term
 	closedHavocs [][2]Term
@@ -966,7 +967,24 @@ func (c *FnCtx) execInstr(fr *Frame, st *State, instr ssa.Instruction) {
 		// ghost updates attached to this call (`after OPKEY: x = e`) in sequential functions
 		if c.og != nil && c.og.inv == nil && fr.depth == 0 && c.inSpec == 0 {
 			if key := c.opKeyOf(fr, x); key != "" {
-				c.ogApplyAfters(fr, st, key, TTrue, nil)
+				// opResult (single result) / opResult0, opResult1, ...: what the call returned
+				results := map[string]SV{}
+				resTypes := map[string]types.Type{}
+				if tu, ok := res.(Tu); ok {
+					rs := x.Common().Signature().Results()
+					for i, el := range tu.Elems {
+						if i < rs.Len() {
+							results[fmt.Sprintf("opResult%d", i)] = el
+							resTypes[fmt.Sprintf("opResult%d", i)] = rs.At(i).Type()
+						}
+					}
+				} else if res != nil && x.Common().Signature().Results().Len() == 1 {
+					results["opResult"] = res
+					resTypes["opResult"] = x.Common().Signature().Results().At(0).Type()
+				}
+				c.ogResultTypes = resTypes
+				c.ogApplyAfters(fr, st, key, TTrue, results)
+				c.ogResultTypes = nil
 			}
 		}
 	case *ssa.Defer:
